@@ -7,7 +7,7 @@
 set -u
 ROOT=$(cd "$(dirname "$0")/.." && pwd)
 export GOFLAGS=-mod=mod GOPROXY=off GOSUMDB=off GOTOOLCHAIN=local
-BASE=${TMPDIR:-/var/tmp}/verif-corpus-scratch
+BASE=${TMPDIR:-/var/tmp}/verif-corpus-scratch$( [ "${VERIF_REPO:-/repo}" != /repo ] && echo "-$(echo "$VERIF_REPO" | tr / _)" )
 mkdir -p "$BASE"
 exec 9>"$BASE/.lock"
 flock 9
@@ -16,7 +16,7 @@ cleanup() { rm -rf "$S" "$BASE/out.txt"; }
 trap cleanup EXIT
 rm -rf "$S"
 mkdir -p "$S"
-rsync -a --exclude .git /repo/ "$S/"
+rsync -a --exclude .git --exclude MUTANT --exclude "mutant_*" "${VERIF_REPO:-/repo}/" "$S/"
 rm -rf "$S/fmttests/testdata/format"
 cp -r "$ROOT/corpus/format" "$S/fmttests/testdata/format"
 start=$(date +%s.%N)
